@@ -114,7 +114,7 @@ def run_driver(ctx, args, timeout=1800, env_extra=None):
     r = subprocess.run([ctx.driver] + args, cwd=ctx.work, env=env, stdout=subprocess.PIPE,
                        stderr=subprocess.STDOUT, text=True, timeout=timeout)
     if r.returncode != 0:
-        m = re.search(r"(?s)\n(?:panic|fatal error): .*?\n\ngoroutine \d+ \[running\]:\n(.*?)(\n\n|$)", "\n" + r.stdout)
+        m = re.search(r"(?s)\n(?:panic|fatal error): .*?\n\ngoroutine \d+[^\n]*\[running\]:\n(.*?)(\n\n|$)", "\n" + r.stdout)
         if m and "HARNESS PANIC" not in r.stdout:
             frames = m.group(1)
             first = frames.strip().splitlines()[0] if frames.strip() else ""
@@ -1150,12 +1150,13 @@ def run_check(root, prop, tier, seed, PLANS):
         if ctx.violations:
             rc, status = 1, "violations"
     except SutCrash as ex:
-        # a panic outside any call the harness guards.  It is a verdict only for the properties that
-        # speak about it (C20: never panics; C15: one backend crashes where the others do not), and
-        # only if it happens again when the same driver command is repeated.
+        # a panic or fatal error (concurrent map access, stack overflow) outside any call the harness can guard,
+        # raised in frames of the code under test.  Every property states what calls return; a call that takes
+        # the process down returned nothing.  It is a verdict only if it happens again when the same driver
+        # command is repeated.
         again = subprocess.run([ctx.driver] + ex.cmd_args, cwd=ctx.work, env=dict(os.environ, **GOENV), stdout=subprocess.PIPE,
                                stderr=subprocess.STDOUT, text=True)
-        if ctx.prop in ("C15", "C20", "C07") and again.returncode != 0 and ("panic:" in again.stdout or "fatal error:" in again.stdout):
+        if again.returncode != 0 and ("panic:" in again.stdout or "fatal error:" in again.stdout):
             rdir = os.path.join(os.environ.get("VERIF_REPLAY_DIR") or os.path.join(ctx.root, "replays"), ctx.prop)
             os.makedirs(rdir, exist_ok=True)
             path = os.path.join(rdir, "crash-seed%d.json" % ctx.seed)
